@@ -59,6 +59,11 @@ func (h *harness) oracle(after string, level int) {
 	bad := func(inv, detail string) {
 		h.fail("invariant", "invariant="+inv+" after="+after, fmt.Sprintf("level-%d oracle after %s: %s\n%s", level, after, detail, dumpView(v, head)))
 	}
+	if h.model != nil && !h.stopped {
+		if diff := h.model.compare(v); diff != "" {
+			h.fail("model", "invariant=content-mismatch after="+after, "the pool's content differs from the sequential reference model: "+diff+"\n"+dumpView(v, head))
+		}
+	}
 	addrs := make([]common.InternalAddress, 0, nAcc)
 	for a := 0; a < nAcc; a++ {
 		addrs = append(addrs, accounts[a].in)
